@@ -434,43 +434,54 @@ func (w *runner) straddle(ctx context.Context, hist []wl.Event, ref *wl.Ref, spl
 	var devs []dev
 	for _, t := range []string{"", "doc"} {
 		for _, variant := range []string{"tight-on-old-half", "tight-on-young-half"} {
-			r0 := time.Now().Round(0)
-			var offset time.Duration
-			if variant == "tight-on-old-half" {
-				offset = r0.Sub(ts.w1[split-1]).Truncate(time.Millisecond) // largest whole-ms offset the old half certainly reaches
-			} else {
-				offset = r0.Sub(ts.w0[split]).Truncate(time.Millisecond) + 2*time.Millisecond // smallest whole-ms offset (+1 ms for the call) the young half certainly misses
-			}
-			if offset <= 0 || r0.Sub(ts.w1[split-1]) < offset {
-				st.straddleInconclusive++
-				continue
-			}
-			got, _, err := w.b.DS.ReadChanges(ctx, store, storage.ReadChangesFilter{ObjectType: t, HorizonOffset: offset}, storage.ReadChangesOptions{Pagination: storage.PaginationOptions{PageSize: 50}})
-			r1 := time.Now().Round(0)
-			st.evals++
-			if !(r1.Sub(ts.w0[split]) < offset) {
-				st.straddleInconclusive++
-				continue
-			}
-			if err != nil && !errors.Is(err, storage.ErrNotFound) {
-				devs = append(devs, dev{"horizon-straddle-read-failed@memory", err.Error(), Case{Backend: w.name, History: hist, Readable: histString(u, hist), Check: "straddle"}})
-				continue
-			}
-			// expected: the first oldN changes of the full list, filtered by type
-			full, _, _ := wl.ChangesRaw(ctx, w.b.DS, store, storage.ReadChangesFilter{}, 0, false)
-			if len(full) < oldN {
-				continue // reported by the count oracle
-			}
-			want := filterType(full[:oldN], t)
-			st.counts["horizon_straddle_cases_decided"]++
-			if !eqChanges(got, want) {
-				c := Case{Backend: w.name, History: hist, Readable: histString(u, hist), Check: fmt.Sprintf("straddle %s split=%d type=%q offset=%v", variant, split, t, offset),
-					Got: wl.ChangeStrings(got), Want: wl.ChangeStrings(want)}
-				sig := "horizon-withholds-old-changes@memory"
-				if len(got) > len(want) {
-					sig = "horizon-does-not-withhold-new-changes@memory"
+			for _, desc := range []bool{false, true} {
+				r0 := time.Now().Round(0)
+				var offset time.Duration
+				if variant == "tight-on-old-half" {
+					offset = r0.Sub(ts.w1[split-1]).Truncate(time.Millisecond) // largest whole-ms offset the old half certainly reaches
+				} else {
+					offset = r0.Sub(ts.w0[split]).Truncate(time.Millisecond) + 2*time.Millisecond // smallest whole-ms offset (+1 ms for the call) the young half certainly misses
 				}
-				devs = append(devs, dev{sig, fmt.Sprintf("requests before the pause are older than the offset, requests after it younger (%s): expected exactly the %d old changes, got %d — history: %s", variant, len(want), len(got), c.Readable), c})
+				if offset <= 0 || r0.Sub(ts.w1[split-1]) < offset {
+					st.straddleInconclusive++
+					continue
+				}
+				got, _, err := w.b.DS.ReadChanges(ctx, store, storage.ReadChangesFilter{ObjectType: t, HorizonOffset: offset}, storage.ReadChangesOptions{SortDesc: desc, Pagination: storage.PaginationOptions{PageSize: 50}})
+				r1 := time.Now().Round(0)
+				st.evals++
+				if !(r1.Sub(ts.w0[split]) < offset) {
+					st.straddleInconclusive++
+					continue
+				}
+				if err != nil && !errors.Is(err, storage.ErrNotFound) {
+					devs = append(devs, dev{"horizon-straddle-read-failed@memory", err.Error(), Case{Backend: w.name, History: hist, Readable: histString(u, hist), Check: "straddle"}})
+					continue
+				}
+				// expected: the first oldN changes of the full list, filtered by type
+				full, _, _ := wl.ChangesRaw(ctx, w.b.DS, store, storage.ReadChangesFilter{}, 0, false)
+				if len(full) < oldN {
+					continue // reported by the count oracle
+				}
+				want := filterType(full[:oldN], t)
+				if desc {
+					want = append([]*openfgav1.TupleChange{}, want...)
+					for i, j := 0, len(want)-1; i < j; i, j = i+1, j-1 {
+						want[i], want[j] = want[j], want[i]
+					}
+				}
+				st.counts["horizon_straddle_cases_decided"]++
+				if !eqChanges(got, want) {
+					c := Case{Backend: w.name, History: hist, Readable: histString(u, hist), Check: fmt.Sprintf("straddle %s split=%d type=%q offset=%v desc=%v", variant, split, t, offset, desc),
+						Got: wl.ChangeStrings(got), Want: wl.ChangeStrings(want)}
+					sig := "horizon-withholds-old-changes@memory"
+					if len(got) > len(want) {
+						sig = "horizon-does-not-withhold-new-changes@memory"
+					}
+					if desc {
+						sig += "/descending"
+					}
+					devs = append(devs, dev{sig, fmt.Sprintf("requests before the pause are older than the offset, requests after it younger (%s): expected exactly the %d old changes, got %d — history: %s", variant, len(want), len(got), c.Readable), c})
+				}
 			}
 		}
 	}
@@ -633,7 +644,7 @@ const rule = "Breadth-first over Write histories (alphabet: write t, delete t, d
 	"states = (tuple set, changelog) computed by the reference model and deduplicated; EVERY accepted transition from every state of history length < D is executed on a fresh store " +
 	"on memory and on SQLite (so a state reached by several histories is checked once per history) and in the reached state: replay(ReadChanges oldest-first) = Read; one entry per applied item, in request order; " +
 	"storage page sizes {default,1,50} and API page sizes {1,50}, with type filters {none, doc, folder, do, fold, user}, agree with the oldest-first list; descending = exact reverse; " +
-	"horizon offset 0 withholds nothing and an offset of 1000 h (API: 60000 min) withholds everything; on memory additionally, for every split point of the history, an offset between the ages of the two halves returns exactly the old half. " +
+	"horizon offset 0 withholds nothing and an offset of 1000 h (API: 60000 min) withholds everything; on memory additionally, for every split point of the history, an offset between the ages of the two halves returns exactly the old half, ascending and descending (descending = its exact reverse). " +
 	"A case is distinct by (backend, state); non-trivial = non-empty changelog."
 
 func Run(o *core.Options) int {
